@@ -242,6 +242,12 @@ def check_zoom(interp, c, facts, rng, runner):
             if zc.shape != (m, m) or not np.allclose(zc, z + 1j * zb, rtol=0, atol=1e-9 * scale):
                 bad.append(("%s:complex-split" % fname, dict(n=n, m=m, order=order)))
                 break
+            c64 = (a + 1j * b).astype(np.complex64)         # single-precision complex data is complex data too
+            z64 = np.asarray(f(c64.copy(), (m, m), order=order))
+            w64 = np.asarray(f(c64.real.astype(float), (m, m), order=order)) + 1j * np.asarray(f(c64.imag.astype(float), (m, m), order=order))
+            if z64.shape != (m, m) or not np.allclose(z64, w64, rtol=0, atol=2e-5 * scale):
+                bad.append(("%s:complex-split:complex64" % fname, dict(n=n, m=m, order=order, imaginary_part_lost=bool(np.isrealobj(z64) or np.abs(np.imag(z64)).max() == 0))))
+                break
             # rectangular target sizes: each axis follows its own grid
             m2 = facts.get((n, m + 1))
             if m2 is not None and m >= 2:
